@@ -82,9 +82,9 @@ def gen(ctx):
         cases.append({"obl": obl, "cls": cls, "stack": stack, "cbs": cbs, "exact": exact})
     for sk in B.ALL_SK:
         for N in (1, 2, 3, 4):
-            for b in range(nbox):
+            for b in list(range(nbox)) + ([6] if q else []):     # (quick: the full-range box too — every finite value inside, the infinities not)
                 # A: clamp<identity<T, N>> shows the delegated coordinate
-                lo, hi = B.random_box(rnd, sk, N, mode=["small", "degenerate", "extreme", "wide", "random", "small", "random"][b % 7])
+                lo, hi = B.random_box(rnd, sk, N, mode=["small", "degenerate", "extreme", "wide", "random", "small", "fullrange"][b % 7])
                 st = G.Clamp(B.vals(sk, lo), B.vals(sk, hi), G.Identity(sk, N))
                 st.lo_b, st.hi_b = lo, hi
                 add("clamp_value", "identity", st, B.coord_mix(rnd, sk, lo, hi, ncoord))
